@@ -34,12 +34,14 @@ def main():
     try:
         # where does the demonstration go?
         head = open(demo).read(400) if demo else ""
-        m = re.search(r"(?:package directory|goes in|place in|directory)[^\n]*?`?([a-z0-9_/\.]+/?)`?", head)
-        pkgdir = "pdu"
-        for cand in ("pdu", "coding/gsm7bit", "coding/semioctet", "coding", "sms", "."):
-            if re.search(r"\b%s\b" % re.escape(cand), head.split("package")[0] if "package" in head else head):
-                pkgdir = cand
-                break
+        pkgdir = None
+        m = re.search(r"directory:?\s*`?([A-Za-z0-9_/\.]+)", head)
+        if m and os.path.isdir(os.path.join(wt, m.group(1).rstrip("/") or ".")):
+            pkgdir = m.group(1).rstrip("/") or "."
+        if pkgdir is None and demo:
+            pm = re.search(r"^package\s+(\w+)", open(demo).read(), re.M)
+            pkgdir = {"pdu": "pdu", "pdu_test": "pdu", "coding": "coding", "gsm7bit": "coding/gsm7bit", "semioctet": "coding/semioctet",
+                      "sms": "sms", "smpp": ".", "smpp_test": "."}.get(pm.group(1) if pm else "", "pdu")
         if demo and demo.endswith("_test.go"):
             dst = os.path.join(wt, pkgdir, "zz_seed_demo_test.go")
             shutil.copy(demo, dst)
